@@ -49,6 +49,8 @@ Definition key_eqb (a b : key) : bool :=
 
 Inductive err :=
 | ENoSafe                      (* ValueError("No know path are safe") *)
+| ELoop                        (* Path.resolve(): RuntimeError("Symlink loop ...") - outside the domain *)
+| EFuel                        (* model out of fuel while walking a directory - outside the domain *)
 | EValue (component : str)     (* ValueError: PYFLYBY_PATH components should start with ... *)
 | EUnsafe                      (* UnsafeFilenameError for an explicit PYFLYBY_PATH entry *)
 | EParse (e : errname).        (* whatever reading/parsing a database file raised *)
@@ -92,12 +94,25 @@ Definition k1 (q : query) (d : path) : key := K1 d (q_env q) (extra q).
     if target_filename.startswith("/dev"):
         try: target_dirname = Filename(".")
         except UnsafeFilenameError: pass *)
-Definition initial_dir (q : query) : option path :=
-  let tp := abspath (q_cwd q) (q_target q) in
-  let parents := (if isdir _ t tp then [tp] else []) ++ tl (ancestors tp) in
-  match find safe_path parents with
-  | None => None
-  | Some sp => Some (if starts_with s_dev (q_target q) && safe_path (q_cwd q) then q_cwd q else sp)
+Definition initial_dir (q : query) : err + path :=
+  (* Path.resolve() = realpath of cwd/target: "." and ".." are resolved physically, after links *)
+  match realpath _ t (if starts_with s_slash (q_target q) then split_on c_slash (q_target q)
+                      else q_cwd q ++ split_on c_slash (q_target q)) with
+  | None => inl ELoop
+  | Some tp =>
+      let parents := (if isdir _ t tp then [tp] else []) ++ tl (ancestors tp) in
+      match find safe_path parents with
+      | None => inl ENoSafe
+      | Some sp => inr (if starts_with s_dev (q_target q) && safe_path (q_cwd q) then q_cwd q else sp)
+      end
+  end.
+
+(*  try: target_dirname = target_dirname.real
+    except UnsafeFilenameError: pass *)
+Definition real_dir (d : path) : path :=
+  match realpath _ t d with
+  | Some r => if safe_path r then r else d
+  | None => d
   end.
 
 (*  while True:
@@ -116,7 +131,7 @@ Definition dir_chain (d : path) : list path := chain_rev (rev d).
 (*  _from_filenames -> _from_code(filenames) *)
 Definition s_missing : errname := Eval vm_compute in dec "FileNotFoundError".
 Definition content_of (f : path) : parsed :=
-  match lookup _ t f with
+  match stat _ t f with
   | Some (File _ c) => c
   | _ => inl s_missing
   end.
@@ -124,15 +139,15 @@ Definition load_files (files : list path) : errname + db := from_code (map conte
 
 Definition get_default (c : cache) (q : query) : cache * outcome :=
   match initial_dir q with
-  | None => (c, Failed ENoSafe)
-  | Some d0 =>
+  | inl e => (c, Failed e)
+  | inr d0 =>
       let chain := dir_chain d0 in
       let keys1 := map (k1 q) chain in
       match first_hit c keys1 with
       | Some v => (c, Hit v)
       | None =>
-          let d := last chain [] in
-          (*  target_dirname = target_dirname.real            (no symbolic links: unchanged)
+          let d := real_dir (last chain []) in
+          (*  target_dirname = target_dirname.real
               if target_dirname != cache_keys[-1][0]:         (a Filename against the integer 1: always true)
                   cache_keys.append((1, target_dirname, ...)); try: return cls._default_cache[cache_keys[-1]] *)
           let keys := keys1 ++ [k1 q d] in
@@ -143,6 +158,7 @@ Definition get_default (c : cache) (q : query) : cache * outcome :=
                                     (default_pyflyby_path etc) d with
               | PPValueError p => (c, Failed (EValue p))
               | PPUnsafe => (c, Failed EUnsafe)
+              | PPFuel => (c, Failed EFuel)
               | PPOk files =>
                   (*  cache_keys.append((2, filenames, mandatory_imports_filenames))
                       try: return cls._default_cache[cache_keys[-1]]     -- returns without storing the (1, ...) keys *)
